@@ -146,6 +146,15 @@ theorem creator_calls_distinct (cfg : Cfg) (prog : Tid → List Op) (sched : Lis
     (callIds (reach cfg prog sched).hist).Nodup :=
   (inv_reach cfg prog sched).fresh.nodup
 
+/-- `model_holds`: the decidable monitor the driver's `cache.judge` evaluates on the IMPLEMENTATION's
+    history (`CacheTS.holds`: trace of the atomic specification, call numbers distinct) is true of
+    every history of the model. -/
+theorem model_holds (cfg : Cfg) (prog : Tid → List Op) (sched : List Tid) (hnc : cfg.noCache = false) :
+    holds cfg (reach cfg prog sched).hist = true := by
+  simp [holds, refines_atomic cfg prog sched hnc, creator_calls_distinct cfg prog sched]
+
+example : holds exCfg [.create 1 0 1, .create 0 0 0] = false := by decide
+
 /-! ### failures are not remembered, clear refreshes -/
 
 /-- `hit_justified`: an object is served from the table only if it is a seed (`BackoffCache`
